@@ -46,10 +46,13 @@ CONSTS = [
 ]
 
 # whole functions as Prelude/PyAst syntax (gen/Flows.v); world coq/Flow/World_core.v; tie theorems coq/Proofs/Flow_core_dns.v
-# (_get_highest_answer contains a lambda and is refused by the translator: in the world it is the model's selection function)
+# (_get_highest_answer's `sorted(answers, key=lambda a: ..)` is desugared by the translator into sorted/key(answers, [key for a in
+# answers]), see flow.py _sort_key_lambda; as a CALLEE of lookup_dc it is the model's selection function, and the tie
+# flow_get_highest_answer proves that this is what its own body computes)
 from ..flow import Flow  # noqa: E402
 
 FLOWS = [
     Flow("k_flow_lookup_dc", "_dns.py", "lookup_dc", props=("C20",)),
     Flow("k_flow_async_lookup_dc", "_dns.py", "async_lookup_dc", props=("C20",)),
+    Flow("k_flow_get_highest_answer", "_dns.py", "_get_highest_answer", props=("C20",)),
 ]
